@@ -22,8 +22,8 @@ check("C17", "exploration",
       "reflect.StructTag and go/parser define how a tag reads; other keys / longer values are outside the bound.",
       "DESIGN.md §3 C17", "E1-range")
 check("C20", "model_checking",
-      "explicit-state BFS over the real Statement API (appends of 1-3 tokens, Clone, clones of clones) with a list model as invariant in every state",
-      "All histories up to the depth bound over a pool of 4 statements are executed on the implementation, de-duplicated on (parent, len, cap, rendering); the list-model invariant is evaluated in every distinct state.",
+      "explicit-state BFS over the real Statement API (three alphabets: appends of 1-3 tokens / Call / Tag / RenderWithFile; neighbour-sensitive tokens Line, Case, Block; Add of one caller-owned slice, same-named Quals, Do with a Clone taken inside, a callback literal; Clone and clones of clones in all of them) with a list model as invariant in every state",
+      "All histories up to the depth bound over a pool of 3-4 statements are executed on the implementation, de-duplicated on (parent, len, cap, rendering, reflection dump of the statement's tree, the oracle's own sets of acceptable parent renderings); the invariant - token texts taken from clone-free twins built on the real API - is evaluated in every distinct state.",
       "Both snapshot and live-view semantics of Clone are accepted; histories longer than the bound are outside it. traces_validated = transitions: every transition executes the implementation.",
       "DESIGN.md §3 C20", "E2")
 IMP = "explicit-state BFS over the real File API in every operation order (dedup on a reflection dump of the File) + choice-point enumeration of canonical pre-render histories per path family; oracle go/parser + go/types with a fabricated importer"
@@ -41,21 +41,21 @@ check("C05", "exploration",
       "Keywords / predeclared names come from go/token and go/types, never from jennifer; longer paths and other characters are outside the bound.",
       "DESIGN.md §3 C05", "E1")
 check("C06", "model_checking", IMP + "; local/dot oracle",
-      "All reachable File states within the depth bound plus canonical histories for three local-path families via both path constructors, every subset of dot-imported paths, prefix on/off.",
-      "Dot status = last hint before the single render (late hints are C08's subject).",
+      "All reachable File states within the depth bound plus canonical histories for four local-path families via the path constructors (incl. package names ending in _test), every subset of dot-imported paths, prefix on/off and set before / after a first render, CanonicalPath, a re-hint after a render; 0..260 ordinary imports around 1-3 dot-imports.",
+      "Dot status = last hint before the first render; a path rendered bare once stays a dot-import.",
       "DESIGN.md §3 C06", "E2+E1")
 check("C19", "model_checking", IMP + "; cgo layout oracle",
-      "All orders of Qual C / Anon C / hints naming C / preamble blocks / prefix up to the depth bound, plus canonical histories over 9 preamble lists and hint kinds.",
+      "All orders of Qual C / Anon C / hints naming C / preamble blocks / prefix up to the depth bound, plus canonical histories over 14 preamble lists, hint kinds, NoFormat, prefix timing, and all histories of 5 (6) operations that include renders.",
       "Comment text compared line-wise trimmed (gofmt may re-indent).",
       "DESIGN.md §3 C19", "E2+E1")
 
 check("C08", "model_checking",
       "explicit-state BFS over the real File + fragments with File.Render / RenderWithFile themselves in the operation alphabet; name-stability and repeatability invariant in every distinct state",
-      "All histories up to the depth bound of additions, renders, fragment renders, late ImportName/ImportAlias (incl. dot), Anon, prefix and NoFormat are executed on the implementation; every state renders everything twice and compares with all names observed earlier in the history.",
+      "All histories up to the depth bound of additions, renders (File.Render, File.GoString, fragment renders, a fragment render into a failing writer), placeholders filled later, one Block group used in two statements, late ImportName/ImportAlias (incl. dot and _), Anon, prefix and NoFormat are executed on the implementation; every state renders everything twice and compares with all names observed earlier in the history. A second BFS over file-level operations compares every state with a twin that was never rendered before; every construct x argument combination is rendered, its arguments changed in place, and rendered again against such a twin.",
       "Anon only on never-referenced paths; unused imports caused by fragment renders are allowed; longer histories are outside the bound.",
       "DESIGN.md §3 C08", "E2")
 check("C10", "fault_enumeration",
-      "exhaustive enumeration of writer answer sequences (ok / error / short write+error at every Write call, via the choice-point explorer) x entry points x valid/invalid trees, and of filesystem situations for Save",
+      "exhaustive enumeration of writer answer sequences (ok / error / short write+error at every Write call, each error wrapping one of 9 identities real writers fail with, via the choice-point explorer) x 7 entry points x valid / invalid / late-panicking trees, and of filesystem situations for Save (incl. a private always-full device); repeated attempts on unrenderable Files",
       "Every answer sequence of the caller's writer is explored to exhaustion whatever number of Write calls the implementation makes; every listed filesystem situation is produced on a real temp directory.",
       "EACCES cannot be produced as root; writers honour the io.Writer contract.",
       "DESIGN.md §3 C10", "E1+E4")
@@ -67,12 +67,12 @@ check("C07", "model_checking",
 check("C16", "model_checking",
       "exhaustive enumeration of Dicts (multisets of key/value kinds, fresh key objects) x every map iteration order (instrumented ranges), parsed-output oracle",
       "Every Dict of the bounded space is rendered under every iteration order of each range execution (deviation-bounded) and the parsed literal compared with the expected multiset, order and layout.",
-      "Key/value expressions outside the 9x6 kinds and larger Dicts are outside the bound.",
+      "Key/value expressions outside the 14x13 kinds and larger Dicts are outside the bound; six File variants (alone, after Anon, after another Dict and a render, through ValuesFunc, wrapped in a statement, after earlier name collisions).",
       "DESIGN.md §3 C16", "E4+E1")
 check("C09", "model_checking",
       "stateless model checking of goroutine interleavings: cooperative scheduler with scheduling points at every access to package-level state (inserted from go/types), preemption-bounded DFS; plus all render orders / sub-statement sharings; plus a separate free-running -race pass",
-      "All interleavings of 2-3 independent build+render jobs with <= 2 (quick) / 3 (thorough) preemptions, all 120 orders of 5 jobs, all sharings of 5 parts between 4 File configurations; data-race freedom is decided by the race detector pass and the explorer's write report, as a cooperative scheduler cannot see unsynchronised accesses.",
-      "Sequential consistency; scheduling points only at jennifer's own package-level variables; more jobs / preemptions are outside the bound.",
+      "All interleavings of 2-3 independent build+render (and File.Save) jobs with <= 2 (quick) / 3 (thorough) preemptions, all 120 orders of 5 jobs and all ordered triples of 14 jobs against solo outputs from one pristine process per job, every construct case in ascending and descending order, all sharings of 8 parts between 4 File configurations, independent renders into writers that block; data-race freedom is decided by the race detector pass and the explorer's write report, as a cooperative scheduler cannot see unsynchronised accesses.",
+      "Sequential consistency; scheduling points at jennifer's own package-level variables and at its calls into os / io/ioutil; more jobs / preemptions are outside the bound; the blocked-writer phase waits up to 90 s (the one timed oracle).",
       "DESIGN.md §3 C09", "E3+E4+E1")
 
 check("C13", "exploration",
@@ -91,7 +91,7 @@ check("C15", "exploration",
       "CR excluded; after gofmt survival is required line-wise (gofmt rewrites comment text), verbatim on the raw output.",
       "DESIGN.md §3 C15", "E1-range")
 check("C18", "exploration",
-      "complete enumeration of the installed toolchain's package directories (names parsed from package clauses) alone under 7 scenarios and in every ordered pair; gennames built and run, its table compared entry by entry",
+      "complete enumeration of the installed toolchain's package directories (names parsed from package clauses) alone under 18 scenarios and in every ordered pair (same-named pairs under more); gennames built and run under a matrix of its flags, its tables compared entry by entry and with each other",
       "The finite domain named by the property - every package directory of GOROOT/src - is covered completely, as are all ordered pairs.",
       "Package names come from go/parser over GOROOT/src, not from jennifer's table.",
       "DESIGN.md §3 C18", "E1-range")
